@@ -148,6 +148,9 @@ func (h *hostile) comp(benign string) string {
 
 var versionForms = []string{
 	"v1.2.3", "v0.0.0-20200223170610-d5e6a3e2c0ae", "v2.4.0", "v1.2.3-4-abc", "xv0.0.0-1-zz", "v0.0.0-2020-gg",
+	// semver pre-releases and build metadata, the other two pseudo-version forms, short tags
+	"v1.0.0-rc1", "v2.3.4-beta.2", "v1.0.0-rc.1+incompatible", "v1.2.4-0.20191109021931-daa7c04131f5", "v1.2.3-pre.0.20191109021931-daa7c04131f5",
+	"v2.0.0+incompatible", "v1-a", "v0.0.0-", "-", "v1.2.3-",
 	"v1.2.3-0.20200223170610-d5e6a3e2c0ae", "v10.20.30-40-0a1b2cxyz", "vv1.2.3-4-ff", "v1.2-3-4", "", "master", "v1.2.3-4-", "1v1.1.1-1-a/v2.2.2-2-b",
 }
 
